@@ -472,14 +472,16 @@ func c12Order(c *core.Ctx) {
 	// previous-date variable: a *cal.Date local assigned from <elem>.Since at the end of the loop body
 	var prev *types.Var
 	var cur *types.Var
+	ldOrder := core.NewLocalDefs(info, fd.Decl.Body)
 	ast.Inspect(loop, func(n ast.Node) bool {
 		as, ok := n.(*ast.AssignStmt)
 		if !ok || len(as.Lhs) != 1 || len(as.Rhs) != 1 {
 			return true
 		}
-		if f := core.FieldOf(info, as.Rhs[0]); f != nil && f.Name() == "Since" && as.Tok == token.ASSIGN {
+		rhs := ldOrder.Resolve(as.Rhs[0], 2) // `prev = since` with `since := v.Since`
+		if f := core.FieldOf(info, rhs); f != nil && f.Name() == "Since" && as.Tok == token.ASSIGN {
 			prev = core.VarOf(info, as.Lhs[0])
-			cur = core.RootVar(info, as.Rhs[0])
+			cur = core.RootVar(info, rhs)
 		}
 		return true
 	})
@@ -498,6 +500,9 @@ func c12Order(c *core.Ctx) {
 					e = ast.Unparen(se.X)
 				}
 			}
+		}
+		if v := core.VarOf(info, e); v != nil && v != prev && !v.IsField() {
+			e = ast.Unparen(ldOrder.Resolve(e, 2)) // a local copy of the element's start date
 		}
 		if core.IsFieldOfVar(info, e, cur, "Since") {
 			return "A"
